@@ -26,37 +26,41 @@ from props.qtylib import F, Obs
 
 MANIFEST = dict(
     category="proof",
-    text="Machine-checked proof (Coq) over the model of impl PartialEq for Quantity, partial_cmp_preserve_nan and "
-         "the vm.rs comparison opcodes. Exact level: == and the orderings are symmetric under swapping operands and "
-         "decide the order of the physical quantities (C11_eq_sym_exact, C11_ord_sym_exact, C11_ord_exact). For any "
-         "number type: != is the negation of ==, every ordering comparison with a NaN operand is false, and when "
-         "the one-sided ordering is defined exactly one of <, ==, > holds (C11_ne, C11_nan_false, "
-         "C11_trichotomy_f). The order-independence claimed by the property is FALSE of the code under rounding: "
-         "C11_symmetry_refuted exhibits the asymmetry of the one-sided conversion in a rounding arithmetic; the f64 "
-         "witness `40.5 firkin == (40.5 firkin -> long_hundredweight)` is reproduced on every run and reported as "
-         "the open known finding C11-eq-one-sided (C11-ord-one-sided for <,>). All theorems closed under the "
-         "global context.",
+    text="Machine-checked proof (Coq) over the model of Quantity::symmetric_partial_cmp (introduced by the fix of the "
+         "findings C11-eq-one-sided / C11-ord-one-sided: each operand is converted into the other's unit and the two "
+         "comparisons must agree), impl PartialEq/PartialOrd for Quantity, partial_cmp_preserve_nan and the vm.rs "
+         "comparison opcodes. For ANY number type whose partial_cmp is antisymmetric (IEEE doubles; proved for the "
+         "exact instance): a == b equals b == a and `a op b` equals `b flip(op) a` for the four orderings, as results "
+         "including errors (C11_eq_sym, C11_ord_sym); != is the negation of == (C11_ne); every ordering with a NaN "
+         "operand is false (C11_nan_false); when the ordering is defined exactly one of <, ==, > holds "
+         "(C11_trichotomy_f). Exact level: the ordering and == decide the order/equality of the physical quantities "
+         "(C11_ord_exact, C11_eq_exact). All closed under the global context.",
     design_ref="DESIGN.md §6 C11, §7 #8; design/qty.md",
-    note="Trusted: Coq kernel + vm_compute; Qty/Model.v hand port; hook dump/translator; the Python f64 replica of "
-         "convert_to for one-factor units (libm pow(x,1)=x, compiler-rt powi) used only by the known-finding matcher.",
-    technique="Coq proof (exact + structural) + refutation witness + exhaustive unit-pair correspondence",
+    note="Trusted: Coq kernel + vm_compute; Qty/Model.v hand port; hook dump/translator; antisymmetry of f64 partial_cmp is a "
+         "hypothesis of the order-independence theorems; the Python f64 replica of the comparison for one-factor units "
+         "(libm pow(x,1)=x, compiler-rt powi) checks the rounding-level ties.",
+    technique="Coq proof (structural for any number type + exact) + exhaustive unit-pair correspondence",
 )
 
-THEOREMS = ["C11_eq_sym_exact", "C11_ord_sym_exact", "C11_ord_exact", "C11_ne", "C11_nan_false",
-            "C11_trichotomy_f", "C11_symmetry_refuted", "C11_symmetry_full_refuted"]
+THEOREMS = ["C11_eq_sym", "C11_ord_sym", "C11_ne", "C11_nan_false", "C11_trichotomy_f", "C11_ord_exact", "C11_eq_exact"]
 FLIP = {"<": ">", ">": "<", "=": "=", "n": "n", "i": "i"}
 NAN = "7ff8000000000000"
 
 
 def replica_answers(tbl, va, ua, vb, ub):
-    """what the current code computes in f64 for one-factor units: (a==b, b==a, cmp(a,b), cmp(b,a))"""
+    """what the current code (Quantity::symmetric_partial_cmp) computes in f64 for one-factor units:
+    (a==b, b==a, cmp(a,b), cmp(b,a))"""
     def code(x, y):
         if math.isnan(x) or math.isnan(y):
             return "?"
         return "<" if x < y else (">" if x > y else "=")
-    b_in_a = qtylib.replica_convert(tbl, vb, ub, ua)
-    a_in_b = qtylib.replica_convert(tbl, va, ua, ub)
-    return (va == b_in_a, vb == a_in_b, code(va, b_in_a), code(vb, a_in_b))
+
+    def sym(v1, u1, v2, u2):
+        c1 = code(v1, qtylib.replica_convert(tbl, v2, u2, u1))
+        c2 = code(qtylib.replica_convert(tbl, v1, u1, u2), v2)
+        return c1 if c1 == c2 else "="
+    ab, ba = sym(va, ua, vb, ub), sym(vb, ub, va, ua)
+    return (ab == "=", ba == "=", ab, ba)
 
 
 def run(chk):
@@ -103,6 +107,14 @@ def run(chk):
     for (a, b) in rng.sample(pairs, 60):
         add("nan", NAN, [F(a)], qtylib.f2bits(1.0), [F(b)])
         add("nan", qtylib.f2bits(2.0), [F(a)], NAN, [F(b)])
+    # special magnitudes for EVERY ordered pair: signed zeros, subnormals, infinities, NaN, values that
+    # underflow to +-0 after conversion
+    SPECIALS = [-0.0, 0.0, 5e-324, -5e-324, 1e-310, -1e-310, float("inf"), float("-inf"), float("nan"), 1e300, -1e300]
+    for (a, b) in pairs:
+        ua, ub = [F(a)], [F(b)]
+        z = rng.choice([(-0.0, 0.0), (0.0, -0.0), (-0.0, -0.0)])
+        add("special-zero", qtylib.f2bits(z[0]), ua, qtylib.f2bits(z[1]), ub)
+        add("special", qtylib.f2bits(rng.choice(SPECIALS)), ua, qtylib.f2bits(rng.choice(SPECIALS)), ub)
     gen = qtylib.Gen(rng, tbl)
     for _ in range(150 if quick else 1500):
         ua = gen.unit()
@@ -117,9 +129,13 @@ def run(chk):
         sa, sb = qtylib.spell_unit(tbl, ua, rng), qtylib.spell_unit(tbl, ub, rng)
         if sa is None or sb is None:
             continue
-        va, vb = rng.choice(mags), rng.choice(mags + ["NaN"])
+        if rng.random() < 0.4:
+            va, vb = rng.choice([(-0.0, 0.0), (0.0, -0.0), (-0.0, -0.0), (5e-324, -0.0), (0.0, 1e-310)])
+        else:
+            va, vb = rng.choice(mags), rng.choice(mags + ["NaN"])
+        gid = len(srcs)
         for op in ("<", "<=", ">", ">=", "==", "!="):
-            srcs.append(dict(op=op, va=va, ua=ua, vb=vb, ub=ub,
+            srcs.append(dict(op=op, va=va, ua=ua, vb=vb, ub=ub, gid=gid,
                              line="S (%r * %s) %s (%s * %s)" % (va, sa, op, vb if vb == "NaN" else repr(vb), sb)))
 
     lines = [l for c in cases for l in c["lines"]] + [s["line"] for s in srcs]
@@ -158,8 +174,13 @@ def run(chk):
             bad.append(("tri!", "a == b is %s but the ordering of a against b is '%s'" % (e1.b, c1.c)))
         # classification of the operands
         exact = tbl.exact_unit(c["ua"]) and tbl.exact_unit(c["ub"])
+        finite = math.isfinite(va) and math.isfinite(vb)
+        # magnitudes whose conversion can under-/overflow in f64: not an exact-level fact
+        tiny = finite and any(x != 0.0 and (abs(x) < 1e-250 or abs(x) > 1e250) for x in (va, vb))
+        if c1.c in "<=>" and c2.c in "<=>" and (e2.b != (c2.c == "=")):
+            bad.append(("tri!", "b == a is %s but the ordering of b against a is '%s'" % (e2.b, c2.c)))
         near = False
-        if not isnan and math.isfinite(vb) and c["ua"] != c["ub"]:
+        if not isnan and finite and not tiny and c["ua"] != c["ub"]:
             # equal up to rounding (exactly equal included): the f64 answer is decided by rounding
             da = Fraction(va) * Fraction(qtylib.any_scale(tbl, c["ua"]))
             db = Fraction(vb) * Fraction(qtylib.any_scale(tbl, c["ub"]))
@@ -183,7 +204,7 @@ def run(chk):
             else:
                 violations.append((c, why))
         # exact model where the answer is an exact-level fact
-        if exact and not isnan and not near and math.isfinite(vb):
+        if exact and not isnan and not near and finite and not tiny:
             qa_t, qb_t = tbl.coq_q(c["va"], c["ua"]), tbl.coq_q(qb.bits, c["ub"])
             full = (not quick) or n % 4 == 0
             for (fn, x, y, ob) in ((("r_eq", qa_t, qb_t, e1), ("r_eq", qb_t, qa_t, e2), ("r_ne", qa_t, qb_t, ne),
@@ -208,6 +229,8 @@ def run(chk):
             continue
         if not (tbl.exact_unit(s["ua"]) and tbl.exact_unit(s["ub"])):
             continue
+        if any(x != 0.0 and (abs(x) < 1e-250 or abs(x) > 1e250) for x in (s["va"], s["vb"])):
+            continue
         da = Fraction(s["va"]) * tbl.scale(s["ua"])
         db = Fraction(s["vb"]) * tbl.scale(s["ub"])
         if s["ua"] != s["ub"] and qtylib.rel_close(da, db, 1e-13):
@@ -222,6 +245,22 @@ def run(chk):
             items.append(("%s PX_env prelude_n_exact %s %s" % ("r_eq" if s["op"] == "==" else "r_ne", qa_t, qb_t),
                           ob.expected_model_string()))
         idx.append(-1 - k)
+    groups = collections.defaultdict(dict)
+    for sr in srcs:
+        if sr["obs"].kind == "B":
+            groups[sr["gid"]][sr["op"]] = sr["obs"].b
+    for gid, g in groups.items():
+        if len(g) != 6:
+            continue
+        why = None
+        if g["!="] != (not g["=="]):
+            why = "`!=` is not the negation of `==`"
+        elif g["<="] != (g["<"] or g["=="]) or g[">="] != (g[">"] or g["=="]):
+            why = "`<=` / `>=` is not `<` / `>` or `==`: %s" % g
+        elif srcs[gid]["vb"] != "NaN" and [g["<"], g["=="], g[">"]].count(True) != 1:
+            why = "not exactly one of <, ==, > holds: %s" % g
+        if why:
+            violations.append((srcs[gid], why + "   for " + srcs[gid]["line"][2:].replace(" < ", " ? ")))
     bad = qtylib.coq_mismatches(items, "c11", shard_size=400)
     mism = {k: v for k, v in bad.items()}
 
@@ -263,6 +302,7 @@ def run(chk):
         "replica_checked_ties": replica_checked, "replica_mispredictions": replica_wrong,
         "c08_panics_not_judged": panics,
         "model_evaluations": len(items), "model_mismatches": len(mism), "oracle_failures": len(real),
+        "oracle_failure_kinds": dict(collections.Counter(v[0].get("kind", "operator-source") for v in real)),
         "samples": [{"lines": cases[i]["lines"][:5], "implementation": [o.raw for o in cases[i]["obs"][:5]]}
                     for i in (0, len(cases) // 2, len(cases) - 1)] + ([{"line": srcs[0]["line"], "implementation": srcs[0]["obs"].raw}] if srcs else []),
     })
